@@ -677,7 +677,7 @@ fn c05_cases(thorough: bool, v: &mut dyn FnMut(Case)) {
         for (ti, (alpha, cf)) in truths(fam, thorough).iter().enumerate() {
             let ns: &[usize] = if thorough { &[32, 64, 200] } else { &[32, 64] };
             for &n in ns {
-                for w in [WKind::None, WKind::Ones, WKind::Ramp, WKind::InvSigma] {
+                for w in [WKind::None, WKind::Ones, WKind::Threes, WKind::Ramp, WKind::InvSigma] {
                     for (level, nv) in [(0.0, 0u64), (1e-4, 1), (1e-3, 2), (1e-2, 3), (1e-3, 0), (1e-2, 4)] {
                         for (smi, sm) in start_mults(fam.p(), thorough).iter().enumerate() {
                             for s in [1usize, 2, 3] {
